@@ -453,7 +453,9 @@ func VH_printNFC(where int) {
 	env.Define("x", v)
 	utils.HadError, utils.HadRuntimeError = false, false
 	verifClearEvents()
-	in.eval(&ast.PrintStatement{Expression: ident("x", 2)}, env, false)
+	// a print statement is the same in a script and on a REPL line
+	isRepl := verifChoice(2) == 1
+	in.eval(&ast.PrintStatement{Expression: ident("x", 2)}, env, isRepl)
 	verifAssert("nested-print-one-line", hvCountStdout() == 1 && hvCountStderr() == 0)
 	if hvCountStdout() == 1 {
 		text := verifEventText(0)
